@@ -85,6 +85,8 @@ def gen_new(rng, ftype, cost=None, nmax=8, minimizer=None):
         ents = [_round(edges[0] - 0.1 * span + (1.2 * span) * rng.random(), 4) for _ in range(nent)]
         spec.update({"model": mk, "edges": edges, "entries": ents, "ptrue": list(dflt), "bin_eval": rng.choice(["antiderivative", "antiderivative", "numerical", "simpson", "trapezoid", "rectangle"]),
                      "as_numpy": rng.random() < 0.25})
+        if spec["bin_eval"] == "numerical":
+            spec["minimizer"] = "iminuit"  # scipy + numerical quadrature makes excursions (profiles, asymmetric errors) take minutes
     else:
         mk = rng.choice(["normal", "expon"])
         pdf, cdf, names, dflt = userlib.DENSITIES[mk]
@@ -211,6 +213,7 @@ class FitSim(object):
         self.src_where = []  # 'data' | 'model'
         self.ref = RefFit(spec["type"], spec["cost"])
         self.fit = None
+        self.limited = set()
         self._build(pre_sources)
 
     # -- construction
@@ -405,11 +408,13 @@ class FitSim(object):
             if name not in ref.par_names:
                 raise NotApplicable("par")
             fit.limit_parameter(name, lo, hi)
+            self.limited.add(name)
             return None
         if k == "unlimit":
-            if a not in ref.par_names:
-                raise NotApplicable("par")
+            if a not in ref.par_names or a not in self.limited:
+                raise NotApplicable("not limited")
             fit.unlimit_parameter(a)
+            self.limited.discard(a)
             return None
         raise NotApplicable("unknown op %s" % k)
 
